@@ -233,7 +233,8 @@ def resolve( path, attribute=False ):
     tag				= u'' # developing ISO-8859-1 symbolic tag "Symbol.Subsymbol"
 
     for term in path['segment']:
-        if ( result['class'] is not None		# Got Class already
+        if ( 'symbolic' not in term			# A symbolic term names a Tag: resolve it, or fail
+             and result['class'] is not None		# Got Class already
              and result['instance'] is not None		# Got Instance already
              and (
                  result['attribute'] is not None	# Got Attribute already
@@ -242,7 +243,7 @@ def resolve( path, attribute=False ):
                       and 'attribute' not in term )     #     and the term didn't contain a supplied one
              )
             ):
-            break # All desired terms specified; done! (ie. ignore subsequent 'element')
+            continue # All desired terms specified; done! (ie. ignore subsequent 'element')
         working			= dict( term )
         while working:
             # Each term is something like {'class':5}, {'instance':1}, or (from symbol table):
